@@ -292,22 +292,50 @@ Section InterpPriv.
       destruct (init_loop a b c d e) as [h2 r2] eqn:Ei end.
     assert (P2 : private_attrs h2) by (eapply init_loop_priv; [|eauto]; fin).
     destruct r2; try (inversion H; subst; auto; fail).
-    match type of H with (let (_, _) := alloc ?hh ?nn in _) = _ => destruct (alloc hh nn) as [h4 o] eqn:Ea2 end.
-    inversion H; subst. eapply priv_alloc; [| |eauto].
-    - match goal with |- context [update_items ?a ?b ?c] => destruct (update_items a b c) as [hu|] eqn:Eu end;
+    match type of H with context [alloc ?hx (NList [])] => set (h3 := hx) in * end.
+    assert (P3 : private_attrs h3).
+    { subst h3.
+      match goal with |- context [update_items ?a ?b ?c] => destruct (update_items a b c) as [hu|] eqn:Eu end;
         (match goal with |- private_attrs (if ?c then _ else _) => destruct c end);
         try (match goal with |- private_attrs (match set_item ?a ?b ?c ?d with _ => _ end) =>
                destruct (set_item a b c d) eqn:? end);
-        fin.
-    - simpl. constructor; [reflexivity|].
-      match goal with |- context [match ?x with _ => _ end] => destruct x end; repeat constructor.
+        fin. }
+    clearbody h3.
+    assert (K : forall hx vrf, private_attrs hx -> Forall (fun kv => setattr_allowed (fst kv) = true) vrf ->
+              (let (h4, o) := alloc hx (NObj c ((u "_inner", VR s) :: vrf)) in (h4, RVal (VR o))) = (h', res) ->
+              private_attrs h').
+    { intros hx vrf Px Fv Hx. destruct (alloc hx (NObj c ((u "_inner", VR s) :: vrf))) as [h4 o] eqn:Ea2.
+      inversion Hx; subst. eapply priv_alloc; [exact Px | | exact Ea2]. simpl. constructor; [reflexivity | exact Fv]. }
+    destruct (assoc (u "_valid_refs") m); [eapply K; [exact P3 | repeat constructor | exact H]|].
+    destruct (mem_ustr c (observables W)); [|eapply K; [exact P3 | constructor | exact H]].
+    destruct (alloc h3 (NList [])) as [hv lv] eqn:Eav.
+    eapply K; [| repeat constructor | exact H]. eapply priv_alloc; [exact P3 | simpl; auto | exact Eav].
+  Qed.
+
+  Lemma ext_step_priv : forall ext ov h h' res,
+    private_attrs h -> ext_step W rec ext ov h = (h', res) -> private_attrs h'.
+  Proof.
+    unfold ext_step, bindv. intros ext ov h h' res P H. crunch H; try fin.
+    all: try (match goal with
+              | E : set_field ?hb ?o ?k ?v = Some ?hc |- _ =>
+                  assert (private_attrs hc) by (apply (priv_set_field hb o k v hc); [fin | reflexivity | exact E])
+              end); fin.
+  Qed.
+
+  Lemma construct_full_priv : forall c sch m h h' res,
+    private_attrs h -> construct_full W rec c sch m h = (h', res) -> private_attrs h'.
+  Proof.
+    unfold construct_full, bindv. intros c sch m h h' res P H.
+    destruct (construct_body W rec c sch m h) as [h1 r1] eqn:Eb.
+    assert (P1 := construct_body_priv _ _ _ _ _ _ P Eb).
+    crunch H; eauto using ext_step_priv.
   Qed.
 
   Lemma construct_priv : forall c kw h h' res,
     private_attrs h -> construct W rec c kw h = (h', res) -> private_attrs h'.
   Proof.
     unfold construct, bindv. intros c kw h h' res P H.
-    crunch H; try (eapply construct_body_priv; [|eassumption]); fin.
+    crunch H; try (eapply construct_full_priv; [|eassumption]); fin.
   Qed.
 
   Lemma parse_dict_priv : forall v ver ac h h' res,
